@@ -322,6 +322,20 @@ pub fn run(ctx: &mut Ctx) {
                 ctx.judge(ok, &[], "pre-parse filter judges a frame on other endpoints than the analyzer reports for it", || {
                     json!({"frame_hex": hex(&f.frame), "filter": cfg.describe(), "analyzer_view": view(&f.frame).map(|v| format!("{}:{} > {}:{}", v.0, v.2, v.1, v.3)), "expected_admit": want, "raw_filter": format!("{got:?}")})
                 });
+                // the same frame put to the opposite filter (mode flipped) straight afterwards on
+                // the same thread: the answer belongs to the filter that asks
+                let mut other = cfg.clone();
+                other.deny = !other.deny;
+                let want2 = admitted(&other, &f.frame);
+                let got2 = [
+                    guard(|| huginn_net_tcp::raw_filter::apply(&f.frame, &c14::build_tcp(&other))),
+                    guard(|| huginn_net_http::raw_filter::apply(&f.frame, &c14::build_http(&other))),
+                    guard(|| huginn_net_tls::raw_filter::apply(&f.frame, &c14::build_tls(&other))),
+                ];
+                let ok2 = got2.iter().all(|g| matches!(g, Ok(x) if *x == want2));
+                ctx.judge(ok2, &[], "pre-parse filter decision depends on a filter asked before", || {
+                    json!({"frame_hex": hex(&f.frame), "asked_first": cfg.describe(), "asked_second": other.describe(), "expected_admit_second": want2, "raw_filter_second": format!("{got2:?}")})
+                });
             }
             // pools and the unified analyze_pcap path on a subset
             if t % 5 == 0 && !ctx.miri() {
@@ -391,6 +405,64 @@ fn pool_and_pcap(ctx: &mut Ctx, r: &mut Rng, t: u64, trace: &[TFrame], cfg: &Cfg
         let mut u = huginn_net::HuginnNet::new(None, 512, Some(cfg_u)).expect("unified");
         eth.iter().filter(|f| admitted(cfg, f)).map(|f| crate::canon::unified(&u.analyze_tcp(f))).filter(|l| !l.is_empty()).collect()
     };
+    // the parallel TCP analyzer with a filter, used for two captures in a row (its pool ends with
+    // each analyze_pcap, so init_pool is called again): the second capture is filtered like the first
+    {
+        let adm: Vec<Vec<u8>> = eth.iter().filter(|f| admitted(cfg, f)).cloned().collect();
+        let path_adm = format!("{dir}/trace_{}_{}_adm.pcap", ctx.shard, t);
+        if pkt::write_pcap(&path_adm, 1, &adm).is_ok() {
+            huginn_net_tcp::verif_hooks::clock::set_ms(scenario::T0);
+            let mut want_tcp: Vec<String> = {
+                let (tx, rx) = std::sync::mpsc::channel();
+                let mut a = huginn_net_tcp::HuginnNetTcp::new(None, 512).expect("tcp");
+                let _ = a.analyze_pcap(&path_adm, tx, None);
+                rx.try_iter().map(|x| crate::canon::tcp(&x)).filter(|l| !l.is_empty()).map(|l| l.join(" || ")).collect()
+            };
+            want_tcp.sort();
+            if let Ok(a) = huginn_net_tcp::HuginnNetTcp::with_config(None, 512, 1 + r.usize(3), eth.len() + 8, *r.pick(&[1usize, 32]), 2) {
+                let mut a = a.with_filter(c14::build_tcp(cfg));
+                for round in 0..2 {
+                    let (tx, rx) = std::sync::mpsc::channel();
+                    if a.init_pool(tx.clone()).is_err() {
+                        break;
+                    }
+                    let _ = a.analyze_pcap(&path, tx, None);
+                    let mut got_tcp: Vec<String> = Vec::new();
+                    let start = std::time::Instant::now();
+                    let mut closed = false;
+                    loop {
+                        match rx.recv_timeout(Duration::from_millis(200)) {
+                            Ok(x) => {
+                                let l = crate::canon::tcp(&x);
+                                if !l.is_empty() {
+                                    got_tcp.push(l.join(" || "));
+                                }
+                            }
+                            Err(std::sync::mpsc::RecvTimeoutError::Disconnected) => {
+                                closed = true;
+                                break;
+                            }
+                            Err(std::sync::mpsc::RecvTimeoutError::Timeout) => {
+                                // the analyzer keeps its pool (and a sender) alive: quiet for 1 s = done
+                                if start.elapsed() > Duration::from_secs(30) || (a.worker_pool().map(|p| p.stats().workers.iter().all(|w| w.queue_size == 0)).unwrap_or(true) && start.elapsed() > Duration::from_millis(1200)) {
+                                    break;
+                                }
+                            }
+                        }
+                    }
+                    let _ = closed;
+                    got_tcp.sort();
+                    ctx.judge(got_tcp == want_tcp, &[], "parallel TCP analyzer with a filter, reused for another capture, differs from the unfiltered analyzer on the admitted sub-trace", || {
+                        let extra: Vec<&String> = got_tcp.iter().filter(|x| !want_tcp.contains(x)).take(3).collect();
+                        let missing: Vec<&String> = want_tcp.iter().filter(|x| !got_tcp.contains(x)).take(3).collect();
+                        json!({"trace": t, "filter": cfg.describe(), "capture_number": round + 1, "expected_results": want_tcp.len(), "actual_results": got_tcp.len(), "not_expected": extra, "missing": missing})
+                    });
+                    ctx.bucket(&format!("tcp/analyze_pcap-parallel/capture{}", round + 1));
+                }
+            }
+            let _ = std::fs::remove_file(&path_adm);
+        }
+    }
     let _ = std::fs::remove_file(&path);
     let _ = sub;
     ctx.judge(got == want, &[], "unified analyze_pcap with a filter differs from the unfiltered analyzer on the admitted sub-trace", || {
